@@ -27,7 +27,7 @@ MIN_NONTRIVIAL = {"quick": 80, "thorough": 900}
 WATCHDOG = {"quick": 2400, "thorough": 8 * 3600}
 REACH = True
 STEPS = ["gelu", "silu", "softmax", "layer_norm", "rms_norm", "linear", "linear_nobias", "silu_glu", "add", "residual_mlp", "residual_attn", "sdpa", "dropout0",
-         "mod_linear", "mod_mlp", "mod_mhsa", "mod_tlayer", "matmul", "conv1d"]
+         "mod_linear", "mod_mlp", "mod_mhsa", "mod_tlayer", "matmul", "conv1d", "mod_rmsnorm", "mod_layernorm", "mod_conv1d", "mod_gelu"]
 
 
 def gen_cases(tier: str, seed: int) -> List[Dict[str, Any]]:
@@ -36,7 +36,7 @@ def gen_cases(tier: str, seed: int) -> List[Dict[str, Any]]:
     q = tier == "quick"
     cases: List[Dict[str, Any]] = []
     names = sorted(OPS)
-    n_fn = 64 if q else 800
+    n_fn = 96 if q else 800
     for i in range(n_fn):
         rng = rng_for(seed, PROPERTY, "fn", i)
         fn = names[i % len(names)]
@@ -50,7 +50,7 @@ def gen_cases(tier: str, seed: int) -> List[Dict[str, Any]]:
         cons = op.constraints()
         cases.append({"kind": "fn", "fn": fn, "cfg": cfg, "constraint": rng.choice(cons), "dtype": rng.choice(["float32", "float32", "float64", "bfloat16"]),
                       "backend": "aot_eager", "fx": True, "seed": derive_seed(seed, PROPERTY, "fn", i) % (2**31)})
-    n_comp = 56 if q else 700
+    n_comp = 88 if q else 700
     for i in range(n_comp):
         rng = rng_for(seed, PROPERTY, "comp", i)
         steps = [rng.choice(STEPS) for _ in range(rng.randint(2, 6))]
@@ -271,6 +271,7 @@ def build_comp(case, torch):
     from torch import nn
 
     D, B, S = 8, 2, 5
+    S_ = S
     steps, mults, cons = case["steps"], case["mults"], case["cons"]
 
     class Comp(nn.Module):
@@ -289,6 +290,14 @@ def build_comp(case, torch):
                     self.mods.append(uu.MHSA(D, 2, is_causal=True))
                 elif s == "mod_tlayer":
                     self.mods.append(uu.TransformerLayer(D, 2, mhsa_tau=0.3, mlp_tau=0.7, is_causal=False))
+                elif s == "mod_rmsnorm":
+                    self.mods.append(uu.RMSNorm(D, elementwise_affine=True))
+                elif s == "mod_layernorm":
+                    self.mods.append(uu.LayerNorm(D, elementwise_affine=True))
+                elif s == "mod_conv1d":
+                    self.mods.append(uu.Conv1d(S_, S_, 3, padding=1, bias=True, constraint="gmean"))
+                elif s == "mod_gelu":
+                    self.mods.append(uu.GELU(mult=2.0, constraint="hmean", approximate="tanh"))
                 else:
                     self.mods.append(nn.Identity())
             self.head = uu.LinearReadout(D, 7)
